@@ -66,6 +66,10 @@ pub struct CopyCase {
     pub pre_sel: u16,
     /// which snapshots to copy (bit mask over the snapshot list, 0 = all)
     pub select: u8,
+    /// all source snapshots carry the same time stamp (a snapshot's time is user-settable; merged
+    /// and rewritten snapshots inherit theirs)
+    #[serde(default)]
+    pub same_time: bool,
 }
 
 fn copy_strategy(_ctx: &Ctx) -> BoxedStrategy<CopyCase> {
@@ -84,9 +88,10 @@ fn copy_strategy(_ctx: &Ctx) -> BoxedStrategy<CopyCase> {
                 0u8..3,
                 any::<u16>(),
                 any::<u8>(),
+                prop::bool::weighted(0.3),
             )
         })
-        .prop_map(|(src_cfg, dst_cfg, tree, rounds, prune_src, pre, pre_sel, select)| CopyCase {
+        .prop_map(|(src_cfg, dst_cfg, tree, rounds, prune_src, pre, pre_sel, select, same_time)| CopyCase {
             src_cfg,
             dst_cfg,
             tree,
@@ -95,6 +100,7 @@ fn copy_strategy(_ctx: &Ctx) -> BoxedStrategy<CopyCase> {
             pre,
             pre_sel,
             select,
+            same_time,
         })
         .boxed()
 }
@@ -122,6 +128,9 @@ fn run_copy(c: &CopyCase, _ctx: &Ctx) -> Outcome {
     }
     let mut states: Vec<MNode> = Vec::new();
     for op in &ops {
+        if c.same_time && matches!(op, HOp::Backup { .. }) {
+            w.clock = 1_700_000_000;
+        }
         if let Err(e) = w.step(op) {
             fail!("building the source repository: {e}");
         }
@@ -129,6 +138,7 @@ fn run_copy(c: &CopyCase, _ctx: &Ctx) -> Outcome {
             states.push(w.tree.clone());
         }
     }
+    out = out.class_if(c.same_time && states.len() >= 2, "source_snapshots_share_one_time");
     let src_files_before = w.storage.files();
 
     let dst = Storage::new();
